@@ -241,6 +241,31 @@ def index_checks(chk, rows, rng, quick, L, only_n=None):
         chk.violation("generate_hilbert_space:limit:size-above-limit-accepted", dict(max_size=5, size=6))
     except ValueError:
         pass
+    # the limit applies to the DEFAULT size too (a state with more visible units than the limit;
+    # fidelity / KL / NLL call generate_hilbert_space() without a size), for every state type
+    from qucumber.nn_states import ComplexWaveFunction, DensityMatrix
+
+    class SmallC(ComplexWaveFunction):
+        max_size = property(lambda self: 5)
+
+    class SmallD(DensityMatrix):
+        max_size = property(lambda self: 5)
+    for big in (Small(6, 2, gpu=False), SmallC(7, 2, gpu=False), SmallD(6, 2, 2, gpu=False)):
+        chk.evaluations += 1
+        try:
+            sp_ = big.generate_hilbert_space()
+            chk.violation("generate_hilbert_space:limit:default-size-above-limit-accepted",
+                          dict(max_size=5, num_visible=big.num_visible, returned_shape=list(sp_.shape)))
+        except ValueError:
+            pass
+    for fits in (Small(5, 2, gpu=False), SmallD(4, 2, 2, gpu=False)):
+        chk.evaluations += 1
+        try:
+            ok = tuple(fits.generate_hilbert_space().shape) == (2 ** fits.num_visible, fits.num_visible)
+        except ValueError:
+            ok = False
+        if not ok:
+            chk.violation("generate_hilbert_space:limit:default-size-within-limit-refused", dict(num_visible=fits.num_visible))
 
 
 # ==================================================================== positions
